@@ -117,6 +117,16 @@ func fromSortedLast(c *Ctx, src *Term, lastM string) bool {
 			if fill && buf.Op == "make" && len(buf.Args) > 0 && buf.Args[0].Key() == "builtin.len("+lastM+")" {
 				ok = true
 			}
+			// ... or a list grown from empty by appending one element per key of the map
+			if l, isList := listOf(x.Args[0]); isList && !ok {
+				all := true
+				for _, el := range l {
+					if !strings.Contains(el.Key(), "range:("+lastM+")") {
+						all = false
+					}
+				}
+				ok = all
+			}
 		}
 		if ok || x.Op != "call" || !strings.Contains(x.Name, "opchild/") {
 			return !ok
@@ -132,7 +142,7 @@ func fromSortedLast(c *Ctx, src *Term, lastM string) bool {
 		}
 		for _, f := range c.W.Funcs {
 			if funcName(f) == x.Name || fnShort(f) == x.Name {
-				for _, st := range c.W.BuildEffects().ReachSites(f, func(s *Site) bool { return s.Kind == SStatic && strings.HasPrefix(s.Callee, "sort.") }) {
+				for _, st := range c.W.BuildEffects().ReachSites(f, func(s *Site) bool { return s.Kind == SStatic && (strings.HasPrefix(s.Callee, "sort.") || strings.HasPrefix(s.Callee, "slices.Sort")) }) {
 					_ = st
 					ok = true
 				}
@@ -890,7 +900,7 @@ func propC14(c *Ctx) {
 				o.Sites++
 				plan := p.Events[i].Call.Args[2]
 				ok := plan.Op == "extract" && plan.Name == "0" && plan.Args[0].Op == "lookup" && plan.Args[0].Args[0].Key() == "k.ExecutorChangePlans" &&
-					plan.Args[0].Args[1].Key() == "uint64((sdk.Context).BlockHeight(sdk.UnwrapSDKContext(ctx)))"
+					plan.Args[0].Args[1].Key() == "uint64((sdk.Context).BlockHeight(ctx))"
 				if !ok {
 					o.Fail(c.evPos(&p.Events[i]), "plan applied is "+trunc(plan.Key(), 160)+", want ExecutorChangePlans[uint64(ctx.BlockHeight())]", c.Dump(p, i))
 				}
